@@ -22,6 +22,7 @@ func AllRules() []*Rule {
 	rs = append(rs, fmtPageRule())
 	rs = append(rs, masterRule())
 	rs = append(rs, round2Rules()...)
+	rs = append(rs, glueRule())
 	return rs
 }
 
@@ -34,7 +35,7 @@ var Props = map[string]PropInfo{}
 
 func init() {
 	Props["C06"] = PropInfo{
-		Explanation: "Static rules over the resolved program (SSA + VTA call graph) decide the structural necessary conditions of the SHARED-lock interval: every exported sqlittle.DB method that reaches a pager.page implementation brackets all page-reaching calls between a tested RLock and a deferred RUnlock on the same handle (LOCK-1); RUnlock has no other caller and the driver reads only through those methods (LOCK-2); RLock invalidates cached state (LOCK-3); the unix pager requests SQLite's pending byte then shared range, non-blocking, returns both errors, releases the pending byte by defer on every exit and records/clears the shared lock correctly (PAGER); descriptors of the database file are not closed behind another handle's back (LOCK-6, known finding).",
+		Explanation: "Static rules over the resolved program (SSA + VTA call graph) decide the structural necessary conditions of the SHARED-lock interval: every exported sqlittle.DB method that reaches a pager.page implementation brackets all page-reaching calls between a tested RLock and a deferred RUnlock on the same handle (LOCK-1); RUnlock has no other caller and the driver reads only through those methods (LOCK-2); RLock invalidates cached state (LOCK-3); the unix pager requests SQLite's pending byte then shared range, non-blocking, returns both errors, releases the pending byte by defer on every exit and records/clears the shared lock correctly (PAGER); descriptors of the database file are not closed behind another handle's back (LOCK-6, known finding). LOCK-7: nothing the pager runs while it holds the SHARED lock (RLock after the lock is taken, page, CheckReservedLock) opens-and-closes or closes a descriptor, so the handle cannot drop its own lock; LOCK-8: an error from Database.RLock means the pager lock is not held (every caller returns without RUnlock on such an error).",
 		NotDecided:  "Behaviour of other processes, lock state as observed from outside, the Windows pager (not demonstrable here); the rules decide that sqlittle requests and releases the right byte ranges on the right paths.",
 	}
 }
@@ -52,11 +53,11 @@ func init() {
 
 func init() {
 	Props["C07"] = PropInfo{
-		Explanation: "PAGER decides that the unix pager requests the pending byte and then the shared range with non-blocking F_SETLK read locks and returns both errors before any state change; LOCK-1 that a failed RLock returns before any page-reaching call (no rows); RD-TABLE extracts the decision table of resolveDirty by path enumeration: a hot journal without a live RESERVED lock is an error, every other combination proceeds to the header read; PAGER-6 that the RESERVED probe is F_GETLK/F_WRLCK on SQLite's reserved byte.",
+		Explanation: "PAGER decides that the unix pager requests the pending byte and then the shared range with non-blocking F_SETLK read locks and returns both errors before any state change; LOCK-1 that a failed RLock returns before any page-reaching call (no rows); RD-TABLE extracts the decision table of resolveDirty by path enumeration: a hot journal without a live RESERVED lock is an error, every other combination proceeds to the header read; PAGER-6 that the RESERVED probe is F_GETLK/F_WRLCK on SQLite's reserved byte. LOCK-7: the handle does not drop its own SHARED lock while reading (no descriptor of the file is closed by pager code run under the lock).",
 		NotDecided:  "What a real writer does in each lock state and that proceeding under RESERVED yields the last committed state (true because SQLite does not touch the file before EXCLUSIVE — an assumption about SQLite).",
 	}
 	Props["C08"] = PropInfo{
-		Explanation: "LOCK-3: RLock invalidates; TXN-1: every exported db function revalidates (resolveDirty) before any page read or cache lookup; RD-TABLE: dirty is cleared only after page 1 was re-read and re-parsed and the fresh header installed; TXN-3: the page cache survives only if the change counter was established unchanged, the schema cache only if the cookie was; TXN-5: the mapping must follow the file (violated: known finding).",
+		Explanation: "LOCK-3: RLock invalidates; TXN-1: every exported db function revalidates (resolveDirty) before any page read or cache lookup; RD-TABLE: dirty is cleared only after page 1 was re-read and re-parsed and the fresh header installed; TXN-3: the page cache survives only if the change counter was established unchanged, the schema cache only if the cookie was; TXN-5: the mapping must follow the file (violated: known finding). GLUE: OpenFile/newDatabase wire the pager, the <file>-journal name, a dirty handle and a fresh cache; the locking API methods call RLock before Schema.",
 		NotDecided:  "History-dependent aspects: that SQLite bumps the counters as assumed and cache coherence for particular interleavings.",
 	}
 	Props["C09"] = PropInfo{
@@ -71,11 +72,11 @@ func init() {
 
 func init() {
 	Props["C19"] = PropInfo{
-		Explanation: "DRV-1..7 decide the producer/consumer protocol of the database/sql driver on SSA: rows are sent only under a blocking select with the cancellable context's Done(), the channel is closed once by the producer's defer after the error was published, Close cancels then waits then reads the error, Next surfaces the stored error or io.EOF and copies positionally, no cancel function is lost, and the driver reads only through sqlittle.DB.SelectDone/Columns with the table and the expanded columns unchanged (LOCK-2, GLOB-3). ERR rules cover error propagation inside the driver.",
+		Explanation: "DRV-1..7 decide the producer/consumer protocol of the database/sql driver on SSA: rows are sent only under a blocking select with the cancellable context's Done(), the channel is closed once by the producer's defer after the error was published, Close cancels then waits then reads the error, Next surfaces the stored error or io.EOF and copies positionally, no cancel function is lost, and the driver reads only through sqlittle.DB.SelectDone/Columns with the table and the expanded columns unchanged (LOCK-2, GLOB-3). ERR rules cover error propagation inside the driver. DRV-8: every iteration of Next's copy loop stores row[i] into dest[i] (database/sql reuses dest); DRV-9: each statement owns a handle opened by its own Prepare and closes it; LOCK-1/LOCK-8: the file lock is released on every return of the locking API; GLUE: SelectDone/Columns route table, callback and columns unchanged to the scan.",
 		NotDecided:  "Schedules: that database/sql calls Close, goroutine counts at run time, the second lock window between Columns and SelectDone.",
 	}
 	Props["C20"] = PropInfo{
-		Explanation: "GLOB-1: no package-level variable of the four packages is written after initialisation (stores, element/field stores, map updates, appends, escapes of mutable references, followed through module callees); GLOB-2: no handle type is reachable from a package-level variable's type; GLOB-3: the only goroutine is the driver's producer, whose sharing is ordered by DRV-3/4/5; GLOB-4: per-handle state is written only through the method receiver.",
+		Explanation: "GLOB-1: no package-level variable of the four packages is written after initialisation (stores, element/field stores, map updates, appends, escapes of mutable references, followed through module callees); GLOB-2: no handle type is reachable from a package-level variable's type; GLOB-3: the only goroutine is the driver's producer, whose sharing is ordered by DRV-3/4/5; GLOB-4: per-handle state is written only through the method receiver. DRV-9: statements never share a handle (each Prepare opens its own), so concurrently running producers of one connection work on separate handles.",
 		NotDecided:  "Races inside the standard library or mmap; a user sharing one handle; the exported mutable globals being changed by the user at run time.",
 	}
 }
@@ -96,7 +97,7 @@ func init() {
 
 func init() {
 	Props["C04"] = PropInfo{
-		Explanation: "SRCH: the predicates handed to sort.Search in the table leaf and interior pages, evaluated over Order(cell key, rowid), give (F,T,T) on the right field (first cell with key ≥ rowid — the file format's meaning of an interior key), the match test gives (F,T,F) and always stops; TRAV: the interior descent continues with the following children and the right-most child, the leaf delivers only the first qualifying cell; VARINT: rowid varints incl. the 9-byte negative form; DONE/ERR rules via their own ids.",
+		Explanation: "SRCH: the predicates handed to sort.Search in the table leaf and interior pages, evaluated over Order(cell key, rowid), give (F,T,T) on the right field (first cell with key ≥ rowid — the file format's meaning of an interior key), the match test gives (F,T,F) and always stops; TRAV: the interior descent continues with the following children and the right-most child, the leaf delivers only the first qualifying cell; VARINT: rowid varints incl. the 9-byte negative form; DONE/ERR rules via their own ids. GLUE: the wiring functions between the public API and the b-tree (which table/index name is looked up and how, which column map, rowid and callback reach toRow and the scan, how the key is converted) route exactly the confirmed values on every error-free path.",
 		NotDecided:  "That interior keys on disk are ordered (a property of the input) and concrete lookups on real trees.",
 	}
 	Props["C13"] = PropInfo{
@@ -107,15 +108,15 @@ func init() {
 
 func init() {
 	Props["C01"] = PropInfo{
-		Explanation: "TRAV: the table b-tree iteration methods consume every cell's child in order, then the right-most child, and leaves emit every cell; FMT-spill/FMT-overflow/REC-table: payload split, overflow layout and record decoding agree with the file format; ROWMAP: toRow's three cases (rowid / DEFAULT for short records / record[rowIndex]) and the rowid-alias decision of toColumnIndexRowid; ROWIDALIAS: which column aliases the rowid; ERR-1/2: a definition that cannot be interpreted surfaces as an error before any scan.",
+		Explanation: "TRAV: the table b-tree iteration methods consume every cell's child in order, then the right-most child, and leaves emit every cell; FMT-spill/FMT-overflow/REC-table: payload split, overflow layout and record decoding agree with the file format; ROWMAP: toRow's three cases (rowid / DEFAULT for short records / record[rowIndex]) and the rowid-alias decision of toColumnIndexRowid; ROWIDALIAS: which column aliases the rowid; ERR-1/2: a definition that cannot be interpreted surfaces as an error before any scan. GLUE: the wiring functions between the public API and the b-tree (which table/index name is looked up and how, which column map, rowid and callback reach toRow and the scan, how the key is converted) route exactly the confirmed values on every error-free path.",
 		NotDecided:  "That decoded values, storage classes and order equal SQLite's on real files; the WITHOUT ROWID column store order (a permutation computed from names).",
 	}
 	Props["C02"] = PropInfo{
-		Explanation: "TRAV/TRAV-flag: index b-tree traversals emit left child, then the interior entry, then the right-most child, every cell; SKIP-1/SKIP-2/ERR: every index entry reaches the row callback or an error, never a stale or skipped row; CHOMP: the rowid is the last index field and the adapters look up and deliver the table row, WITHOUT ROWID lookups typed by the table's PK; IDXCOL: per-column collations; FMT-spill for index cells.",
+		Explanation: "TRAV/TRAV-flag: index b-tree traversals emit left child, then the interior entry, then the right-most child, every cell; SKIP-1/SKIP-2/ERR: every index entry reaches the row callback or an error, never a stale or skipped row; CHOMP: the rowid is the last index field and the adapters look up and deliver the table row, WITHOUT ROWID lookups typed by the table's PK; IDXCOL: per-column collations; FMT-spill for index cells. GLUE: the wiring functions between the public API and the b-tree (which table/index name is looked up and how, which column map, rowid and callback reach toRow and the scan, how the key is converted) route exactly the confirmed values on every error-free path.",
 		NotDecided:  "Partial-index membership, expression columns, tie order, collation order on real data (C11's tables cover the comparator).",
 	}
 	Props["C03"] = PropInfo{
-		Explanation: "KEY: asDbKey carries index column i's direction and validated collation to key column i and maps every documented Go type to a storage type; RANGE: ScanEq searches and filters with the same key and stops at the first unequal record; PKSEL: the primary-key dispatch table; IDXCOL: collation of index columns; CMP-matrix/CMP-search: the comparison tables; SRCH/TRAV/DONE-0: the binary search and the descent it starts.",
+		Explanation: "KEY: asDbKey carries index column i's direction and validated collation to key column i and maps every documented Go type to a storage type; RANGE: ScanEq searches and filters with the same key and stops at the first unequal record; PKSEL: the primary-key dispatch table; IDXCOL: collation of index columns; CMP-matrix/CMP-search: the comparison tables; SRCH/TRAV/DONE-0: the binary search and the descent it starts. GLUE: the wiring functions between the public API and the b-tree (which table/index name is looked up and how, which column map, rowid and callback reach toRow and the scan, how the key is converted) route exactly the confirmed values on every error-free path.",
 		NotDecided:  "That the binary search finds the first equal entry on real trees; PK/index resolution against SQLite's catalogue (C10).",
 	}
 	Props["C10"] = PropInfo{
